@@ -28,6 +28,20 @@ extern "C" int h_save() {
 // C14: saving is pure, repeatable and writes only defined bytes.  source 0: API-built object (and a second,
 // independently built equal object), source 1: object loaded from "in.c3d".
 extern "C" void __vp_sym_reset() noexcept;
+static void save_bigger_object(const char* path) {
+  ezc3d::c3d other;
+  set_rate(other, "POINT", 50.f); set_rate(other, "ANALOG", 200.f);
+  for (int i = 0; i < 5; ++i) { std::string n("big"); n.push_back(char('0' + i)); other.point(n); }
+  for (int i = 0; i < 4; ++i) { std::string n("chan"); n.push_back(char('0' + i)); other.analog(n); }
+  for (int f = 0; f < 4; ++f) {
+    Frame fr; Points pts; Analogs ana;
+    for (int i = 0; i < 5; ++i) { Point p; std::string n("big"); n.push_back(char('0' + i)); p.name(n); p.x(7000.f + i); p.y(7100.f + f); p.z(-7200.f); p.residual(7.f); pts.point(p); }
+    for (int s2 = 0; s2 < 4; ++s2) { SubFrame sf; for (int i = 0; i < 4; ++i) { Channel ch; std::string n("chan"); n.push_back(char('0' + i)); ch.name(n); ch.data(7300.f + i + s2); sf.channel(ch); } ana.subframe(sf); }
+    fr.add(pts, ana); other.frame(fr);
+  }
+  Param q("OTHER", "something else, and rather long at that"); q.set(std::vector<std::string>() = {"abcdefghijklmnop", "d"}); other.parameter("ELSE", q);
+  other.write(path);
+}
 extern "C" int h_c14() {
   const int source = __vp_cfg("source");
   if (source == 0) {
@@ -35,7 +49,7 @@ extern "C" int h_c14() {
     dump_all(c, "pre", true);
     c.write("a.c3d");
     dump_all(c, "mid", true);
-    { ezc3d::c3d other; other.point("zz"); Param q("OTHER", "something else"); q.set(std::vector<std::string>() = {"abc", "d"}); other.parameter("ELSE", q); other.write("other.c3d"); }   // a different object is saved in between
+    save_bigger_object("other.c3d");   // a different, bigger object is saved in between
     c.write("b.c3d");
     dump_all(c, "post", true);
     __vp_sym_reset();                       // the same symbolic inputs again: an equal object built independently
@@ -47,6 +61,7 @@ extern "C" int h_c14() {
     dump_all(c, "pre", true);
     c.write("a.c3d");
     dump_all(c, "mid", true);
+    save_bigger_object("other.c3d");   // a different, bigger object is saved in between
     c.write("b.c3d");
     dump_all(c, "post", true);
     ezc3d::c3d c2("in.c3d");
